@@ -16,9 +16,11 @@
 // EncapsulationResolver (syncer path, v1 pools) give IPIPEnabled / VXLANEnabled(V6) / NoEncapNeeded.
 // "Felix programs the pool's cluster routes" is then the gate that felix/dataplane/driver.go copies
 // into the dataplane config and int_dataplane.go / ipip_mgr.go apply:
-//     VXLAN pool:   VXLANEnabled (v4) / VXLANEnabledV6 (v6)
-//     IPIP pool:    IPIPEnabled && ProgramIPIPClusterRoutes
-//     no-encap:     ProgramNoEncapClusterRoutes && NoEncapNeeded
+//
+//	VXLAN pool:   VXLANEnabled (v4) / VXLANEnabledV6 (v6)
+//	IPIP pool:    IPIPEnabled && ProgramIPIPClusterRoutes
+//	no-encap:     ProgramNoEncapClusterRoutes && NoEncapNeeded
+//
 // The route managers of felix/dataplane/linux themselves are NOT run here (that package builds only
 // with CGO off); this is stated in the assumptions.
 //
@@ -28,6 +30,12 @@
 //     default (Felix EnabledIPIPOnly, BIRD EnabledNoEncapOnly).  For the four supported pairings
 //     (IPIPOnly/NoEncapOnly, Enabled/Disabled, Disabled/Enabled, NoEncapOnly/IPIPOnly) the IPIP and
 //     unencapsulated pools are programmed by exactly one side, the one whose value names the class.
+//
+// History dimension: the same oracle is applied after every step of histories driven through ONE confd
+// client (onUpdates: BGPConfiguration set / changed / deleted, pools removed / re-added) and ONE Felix Config
+// (UpdateFrom: value set in a source, later removed from it), so that state left behind by an earlier
+// setting is observed.  The Felix encapsulation resolver is rebuilt at each step (Felix restarts on such a
+// change); the Config object persists.
 //
 // Deliberately not checked:
 //   - unsupported pairings (the design says they double-program or leave a class unprogrammed): only the
@@ -224,7 +232,18 @@ func makeV3Pool(i int, ps poolSpec, c *harness.Case) *apiv3.IPPool {
 	return p
 }
 
+func nSingle(tier string) int {
+	if tier == "thorough" {
+		return nBase * 25
+	}
+	return nBase
+}
+
 func run(c *harness.Case) {
+	if c.Index >= nSingle(c.Tier) {
+		runHistory(c, c.Index-nSingle(c.Tier))
+		return
+	}
 	base := c.Index % nBase
 	fi := base % nFelixRaw
 	si := base / nFelixRaw % 6
@@ -348,20 +367,6 @@ func run(c *harness.Case) {
 	encB := cb.last
 	c.Count("encap_calculations", 2)
 
-	felixPrograms := func(enc config.Encapsulation, ps poolSpec) bool {
-		switch ps.class {
-		case "vxlan":
-			if ps.ipver == 6 {
-				return enc.VXLANEnabledV6
-			}
-			return enc.VXLANEnabled
-		case "ipip":
-			return enc.IPIPEnabled && fIPIP
-		default:
-			return fNoEncap && enc.NoEncapNeeded
-		}
-	}
-
 	// ---- BIRD side
 	var bgpCfg *apiv3.BGPConfiguration
 	if br.kind != rkAbsentResource {
@@ -390,6 +395,43 @@ func run(c *harness.Case) {
 		c.Count("bird_filter_statements", int64(len(bc.KernelFilterForIPPools)))
 	}
 
+	judgeState(c, &observed{fr: fr, br: br, specs: specs, v3pools: v3pools, pd: pd, fIPIP: fIPIP, fNoEncap: fNoEncap,
+		encA: encA, encB: encB, bIPIP: bIPIP, bNoEncap: bNoEncap, birdStmts: birdStmts, detail: detail})
+}
+
+// observed is everything the oracle looks at for one (current) state.
+type observed struct {
+	fr, br          rawVal
+	specs           []poolSpec
+	v3pools         []*apiv3.IPPool
+	pd              []string
+	fIPIP, fNoEncap bool
+	encA, encB      config.Encapsulation
+	bIPIP, bNoEncap bool
+	birdStmts       map[int][]string
+	detail          map[string]any
+}
+
+// judgeState applies the oracle to one observed (current) state.  It returns false when a violation or
+// an inconclusive verdict has been recorded.
+func judgeState(c *harness.Case, o *observed) bool {
+	fr, br, specs, v3pools, pd := o.fr, o.br, o.specs, o.v3pools, o.pd
+	fIPIP, fNoEncap, bIPIP, bNoEncap := o.fIPIP, o.fNoEncap, o.bIPIP, o.bNoEncap
+	encA, encB, birdStmts, detail := o.encA, o.encB, o.birdStmts, o.detail
+	felixPrograms := func(enc config.Encapsulation, ps poolSpec) bool {
+		switch ps.class {
+		case "vxlan":
+			if ps.ipver == 6 {
+				return enc.VXLANEnabledV6
+			}
+			return enc.VXLANEnabled
+		case "ipip":
+			return enc.IPIPEnabled && fIPIP
+		default:
+			return fNoEncap && enc.NoEncapNeeded
+		}
+	}
+
 	// ---- effective values by the statement
 	eff := func(r rawVal, def string) (string, bool) {
 		switch r.kind {
@@ -413,7 +455,7 @@ func run(c *harness.Case) {
 		asDef := fIPIP == includes(felixDefault, "ipip") && fNoEncap == includes(felixDefault, "noencap")
 		if !asCanon && !asDef {
 			c.Violationf("felix-wrong-case-neither-canonical-nor-default", detail, "Felix value %q: programs ipip=%v noencap=%v is neither %s nor the default", fr.text, fIPIP, fNoEncap, fr.canon)
-			return
+			return false
 		}
 	}
 	if br.kind == rkWrongCase {
@@ -422,7 +464,7 @@ func run(c *harness.Case) {
 		asDef := bIPIP == includes(birdDefault, "ipip") && bNoEncap == includes(birdDefault, "noencap")
 		if !asCanon && !asDef {
 			c.Violationf("bgp-wrong-case-neither-canonical-nor-default", detail, "BGP value %q: policy ipip=%v noencap=%v is neither %s nor the default", br.text, bIPIP, bNoEncap, br.canon)
-			return
+			return false
 		}
 	}
 	pairJudged := fOK && bOK && supported[[2]string{fEff, bEff}]
@@ -454,7 +496,7 @@ func run(c *harness.Case) {
 		if err != nil {
 			detail["unparsed"] = err.Error()
 			c.Inconclusive("unparsed-bird-statement")
-			return
+			return false
 		}
 		fA, fB := felixPrograms(encA, ps), felixPrograms(encB, ps)
 		pdz := map[string]any{}
@@ -474,7 +516,7 @@ func run(c *harness.Case) {
 			if !fA || !fB || bird {
 				c.Violationf("vxlan-pool-not-felix-only", pdz, "VXLAN pool %s under Felix=%s BGP=%s: Felix programs (startup=%v, syncer=%v), BIRD accepts=%v (%s); must be Felix only",
 					v3pools[i].Spec.CIDR, fr, br, fA, fB, bird, matched)
-				return
+				return false
 			}
 			continue
 		}
@@ -495,20 +537,233 @@ func run(c *harness.Case) {
 		switch {
 		case fA != fB:
 			c.Violationf("felix-paths-disagree", pdz, "%s pool %s: Felix startup path says %v, syncer path says %v", ps.class, v3pools[i].Spec.CIDR, fA, fB)
-			return
+			return false
 		case fA && bird:
 			c.Violationf("double-programmed", pdz, "%s pool %s under supported pairing Felix=%s(%s) BGP=%s(%s): BOTH Felix and BIRD program its cluster routes (%s)",
 				ps.class, v3pools[i].Spec.CIDR, fr, fEff, br, bEff, matched)
-			return
+			return false
 		case !fA && !bird:
 			c.Violationf("unprogrammed", pdz, "%s pool %s under supported pairing Felix=%s(%s) BGP=%s(%s): NEITHER Felix nor BIRD programs its cluster routes (%s)",
 				ps.class, v3pools[i].Spec.CIDR, fr, fEff, br, bEff, matched)
-			return
+			return false
 		case fA != wantFelix || bird != wantBird:
 			c.Violationf("wrong-owner", pdz, "%s pool %s under Felix=%s(%s) BGP=%s(%s): programmed by Felix=%v BIRD=%v, the pairing assigns Felix=%v BIRD=%v",
 				ps.class, v3pools[i].Spec.CIDR, fr, fEff, br, bEff, fA, bird, wantFelix, wantBird)
+			return false
+		}
+	}
+	return true
+}
+
+// ---------------------------------------------------------------- histories on long-lived objects
+
+// A form is how one side's setting is expressed at one moment.
+type form struct {
+	kind rawKind
+	val  string // enum value for rkExact
+}
+
+type formPair struct{ felix, bgp form }
+
+func (f form) raw(c *harness.Case) rawVal {
+	switch f.kind {
+	case rkExact:
+		return rawVal{rkExact, f.val, f.val}
+	case rkUnrecognised:
+		return rawVal{rkUnrecognised, unrecognised[c.R.Intn(len(unrecognised))], ""}
+	}
+	return rawVal{kind: f.kind}
+}
+
+func (f form) eff(def string) string {
+	if f.kind == rkExact {
+		return f.val
+	}
+	return def
+}
+
+// supportedForms: every (Felix form, BGP form) whose effective pairing is one of the four supported ones:
+// the four explicit pairings plus every way of spelling the default pairing with absent (Felix value
+// absent; BGP field absent or resource absent) and unrecognised values.  allForms: the full 6 x 7 square.
+var supportedForms, allForms []formPair
+
+func init() {
+	var ff, bf []form
+	for _, v := range enum {
+		ff = append(ff, form{rkExact, v})
+		bf = append(bf, form{rkExact, v})
+	}
+	ff = append(ff, form{kind: rkAbsent}, form{kind: rkUnrecognised})
+	bf = append(bf, form{kind: rkAbsent}, form{kind: rkAbsentResource}, form{kind: rkUnrecognised})
+	for _, f := range ff {
+		for _, b := range bf {
+			fp := formPair{f, b}
+			allForms = append(allForms, fp)
+			if supported[[2]string{f.eff(felixDefault), b.eff(birdDefault)}] {
+				supportedForms = append(supportedForms, fp)
+			}
+		}
+	}
+}
+
+func nHistoryPairs() int { return len(supportedForms) * len(supportedForms) }
+
+// runHistory drives ONE confd client (through onUpdates) and ONE Felix Config (through UpdateFrom) through a
+// history of setting changes - set, change, delete of the default BGPConfiguration; Felix value set in a
+// source and later removed from it; pools removed and re-added - and judges the CURRENT state after every
+// step with the same oracle as the single-shot cases.  History h enumerates the ordered pair
+// (previous supported form pair -> current supported form pair) = h mod 15*15; repetitions add PRNG steps.
+func runHistory(c *harness.Case, h int) {
+	nS := len(supportedForms)
+	pair := h % (nS * nS)
+	rep := h / (nS * nS)
+	steps := []formPair{supportedForms[pair/nS], supportedForms[pair%nS]}
+	if rep > 0 {
+		// a PRNG prefix (any pairing, also unsupported ones) and sometimes a return to the first state
+		for n := 1 + c.R.Intn(2); n > 0; n-- {
+			steps = append([]formPair{allForms[c.R.Intn(len(allForms))]}, steps...)
+		}
+		if c.R.Intn(2) == 0 {
+			steps = append(steps, supportedForms[c.R.Intn(nS)])
+		}
+	}
+	c.NonTrivial("history", pair, rep)
+	c.Count("history_cases", 1)
+
+	client := confdcalico.VerifNewClient("verif-node", "192.168.7.0/24")
+	cfg := config.New()
+	proc := updateprocessors.NewIPPoolUpdateProcessor()
+
+	type livePool struct {
+		spec    poolSpec
+		v3      *apiv3.IPPool
+		v1      *model.KVPair
+		present bool
+	}
+	var pools []*livePool
+	for i, ps := range poolSpecs {
+		p := makeV3Pool(i, ps, c)
+		out, err := proc.Process(&model.KVPair{Key: model.ResourceKey{Kind: apiv3.KindIPPool, Name: p.Name}, Value: p, Revision: "1"})
+		if err != nil || len(out) != 1 || out[0].Value == nil {
+			c.Inconclusive("pool-conversion-failed")
 			return
 		}
+		pools = append(pools, &livePool{spec: ps, v3: p, v1: out[0], present: true})
+		client.OnUpdates([]api.Update{{KVPair: *out[0], UpdateType: api.UpdateTypeKVNew}})
+	}
+
+	bgpKey := model.ResourceKey{Kind: apiv3.KindBGPConfiguration, Name: "default"}
+	bgpPresent := false
+	var felixSrc config.Source
+	felixSet := false
+	var log []string
+
+	for si, st := range steps {
+		fr, br := st.felix.raw(c), st.bgp.raw(c)
+		// ---- Felix: the value disappears from the source that carried it, and (maybe) appears in a source
+		if felixSet && (fr.kind == rkAbsent || c.R.Intn(2) == 0) {
+			if _, err := cfg.UpdateFrom(map[string]string{}, felixSrc); err != nil {
+				c.Inconclusive("felix-config-error")
+				return
+			}
+			felixSet = false
+			c.Count("felix_value_removals", 1)
+		}
+		if fr.kind != rkAbsent {
+			src := felixSrc
+			if !felixSet {
+				src = felixSources[c.R.Intn(len(felixSources))]
+			}
+			key := "ProgramClusterRoutes"
+			if src == config.EnvironmentVariable {
+				key = strings.ToLower(key)
+			}
+			if _, err := cfg.UpdateFrom(map[string]string{key: fr.text}, src); err != nil {
+				c.Violationf("felix-config-error", map[string]any{"history": log}, "Felix config rejected ProgramClusterRoutes=%q from %v: %v", fr.text, src, err)
+				return
+			}
+			felixSrc, felixSet = src, true
+		}
+		// ---- confd: set / change / delete the default BGPConfiguration on the same client
+		if br.kind == rkAbsentResource {
+			if bgpPresent {
+				client.OnUpdates([]api.Update{{KVPair: model.KVPair{Key: bgpKey}, UpdateType: api.UpdateTypeKVDeleted}})
+				bgpPresent = false
+				c.Count("bgp_resource_deletions", 1)
+			}
+		} else {
+			b := apiv3.NewBGPConfiguration()
+			b.ObjectMeta = metav1.ObjectMeta{Name: "default"}
+			if br.kind != rkAbsent {
+				v := br.text
+				b.Spec.ProgramClusterRoutes = &v
+			}
+			ut := api.UpdateTypeKVNew
+			if bgpPresent {
+				ut = api.UpdateTypeKVUpdated
+			}
+			client.OnUpdates([]api.Update{{KVPair: model.KVPair{Key: bgpKey, Value: b, Revision: fmt.Sprint(si + 2)}, UpdateType: ut}})
+			bgpPresent = true
+			c.Count("bgp_resource_writes", 1)
+		}
+		// ---- pool churn
+		if c.R.Intn(3) == 0 {
+			lp := pools[c.R.Intn(len(pools))]
+			if lp.present {
+				client.OnUpdates([]api.Update{{KVPair: model.KVPair{Key: lp.v1.Key}, UpdateType: api.UpdateTypeKVDeleted}})
+				lp.present = false
+			} else {
+				client.OnUpdates([]api.Update{{KVPair: *lp.v1, UpdateType: api.UpdateTypeKVNew}})
+				lp.present = true
+			}
+			c.Count("pool_changes", 1)
+		}
+		log = append(log, fmt.Sprintf("step %d: Felix=%s (source %v, set=%v)  BGP=%s", si, fr, felixSrc, felixSet, br))
+
+		// ---- observe the current state
+		o := &observed{fr: fr, br: br, birdStmts: map[int][]string{}}
+		var v3kvs []*model.KVPair
+		cb := &encapCB{}
+		res := calc.NewEncapsulationResolver(cfg, cb) // Felix restarts on such a change; the Config object persists
+		for _, lp := range pools {
+			if !lp.present {
+				continue
+			}
+			o.specs = append(o.specs, lp.spec)
+			o.v3pools = append(o.v3pools, lp.v3)
+			o.pd = append(o.pd, fmt.Sprintf("%s ipip=%q vxlan=%q", lp.v3.Spec.CIDR, lp.v3.Spec.IPIPMode, lp.v3.Spec.VXLANMode))
+			v3kvs = append(v3kvs, &model.KVPair{Value: lp.v3.DeepCopy()})
+			res.OnPoolUpdate(api.Update{KVPair: *lp.v1, UpdateType: api.UpdateTypeKVNew})
+		}
+		res.OnStatusUpdate(api.InSync)
+		if cb.n == 0 {
+			c.Inconclusive("resolver-never-reported")
+			return
+		}
+		o.encB = cb.last
+		calcA := calc.NewEncapsulationCalculator(cfg, &model.KVPairList{KVPairs: v3kvs})
+		o.encA = config.Encapsulation{IPIPEnabled: calcA.IPIPEnabled(), VXLANEnabled: calcA.VXLANEnabled(),
+			VXLANEnabledV6: calcA.VXLANEnabledV6(), NoEncapNeeded: calcA.NoEncapNeeded()}
+		o.fIPIP, o.fNoEncap = cfg.ProgramIPIPClusterRoutes(), cfg.ProgramNoEncapClusterRoutes()
+		o.bIPIP, o.bNoEncap = client.ClusterRoutePolicy()
+		for _, ver := range []int{4, 6} {
+			bc, err := client.ProcessIPPools(ver)
+			if err != nil {
+				c.Inconclusive("processIPPools-error")
+				return
+			}
+			o.birdStmts[ver] = bc.KernelFilterForIPPools
+			c.Count("bird_filter_statements", int64(len(bc.KernelFilterForIPPools)))
+		}
+		o.detail = map[string]any{"history": append([]string(nil), log...), "felix_value": fr.String(), "bgp_value": br.String(), "pools": o.pd,
+			"judged_step": si}
+		c.Count("history_steps_judged", 1)
+		if !judgeState(c, o) {
+			return
+		}
+	}
+	if h < 2 {
+		c.Sample(map[string]any{"history": log})
 	}
 }
 
@@ -539,7 +794,10 @@ func main() {
 		Exhaustive: true,
 		Rule: "case i enumerates (Felix raw value: 4 enum values, absent, unrecognised, wrong-case) x (Felix source: 6) x (BGP raw value: 4, field absent, resource absent, unrecognised, wrong-case) x " +
 			"(pool: v4 VXLAN Always/CrossSubnet, IPIP Always/CrossSubnet, none; v6 VXLAN Always/CrossSubnet, none) = 2688 combinations; 0-3 further PRNG pools may surround the enumerated one " +
-			"(always in the thorough repetitions); every case is non-trivial, distinct by the tuple and its repetition",
+			"(always in the thorough repetitions); every case is non-trivial, distinct by the tuple and its repetition. " +
+			"After these single-shot cases come HISTORY cases on one long-lived confd client (onUpdates) and one Felix Config (UpdateFrom): every ordered pair (previous -> current) of the 15 supported form pairs " +
+			"(4 explicit pairings + the default pairing spelled with Felix absent/unrecognised and BGP field absent/resource deleted/unrecognised) = 225 two-step histories, repeated with PRNG prefixes of arbitrary pairings, " +
+			"Felix value removed from or moved between sources, BGPConfiguration set / changed / deleted, pools removed and re-added; the current state is judged after every step",
 		Assumptions: []string{
 			"Felix side = felix/config + felix/calc (EncapsulationCalculator and EncapsulationResolver) combined by the gate expressions of felix/dataplane/driver.go, int_dataplane.go:842 and ipip_mgr.go; the route managers of felix/dataplane/linux are not executed (CGO-off package)",
 			"BIRD side = real processIPPools output evaluated by a first-match evaluator of `if (net ~ CIDR) then { ...; accept|reject; }` with the template's trailing `accept;` (template shape verified at start-up); BIRD itself is not run",
@@ -549,12 +807,13 @@ func main() {
 		Setup: func(string) error { return checkTemplates() },
 		Cases: func(tier string) int {
 			if tier == "thorough" {
-				return nBase * 25
+				return nSingle(tier) + nHistoryPairs()*40
 			}
-			return nBase
+			return nSingle(tier) + nHistoryPairs()*2
 		},
 		Run: run,
 		Floors: map[string]int64{"pools_judged": 2000, "exactly_one_checks": 200, "vxlan_clause_checks": 800, "supported_pairings": 300,
-			"bird_filter_statements": 1500, "encap_calculations": 4000, "wrong_case_felix": 100, "wrong_case_bgp": 100},
+			"bird_filter_statements": 1500, "encap_calculations": 4000, "wrong_case_felix": 100, "wrong_case_bgp": 100,
+			"history_cases": 200, "history_steps_judged": 500, "bgp_resource_deletions": 50, "felix_value_removals": 50},
 	})
 }
